@@ -383,7 +383,7 @@ func generate(a *Args, rng *Rng, run func(*c06Case)) {
 	// ---- 6. random mixture
 	extra := 250
 	if thorough {
-		extra = 12000
+		extra = 30000
 	}
 	hours := []int{-90, -60, -31, -30, -29, -21, -20, -19, -10, -6, -5, -4, -1, 1, 4, 5, 6, 10, 30, 90}
 	for i := 0; i < extra; i++ {
